@@ -33,8 +33,18 @@ Node(p, k, perm, uid, gid, tgt, tc, tabs) ==
   [p |-> p, k |-> k, d |-> << >>, sz |-> 0, szbig |-> FALSE, t |-> tgt, tc |-> tc, tabs |-> tabs,
    perm |-> perm, uid |-> uid, gid |-> gid]
 
-\* trees are compared up to what no property fixes: permission bits of symbolic links
-Norm(t) == [q \in DOMAIN t |-> IF t[q].k = "L" THEN [t[q] EXCEPT !.perm = 0] ELSE t[q]]
+\* trees are compared up to what the tree properties do not fix: permission bits of symbolic
+\* links, and ownership (which C11 states separately)
+Norm(t) == [q \in DOMAIN t |-> IF t[q].k = "L" THEN [t[q] EXCEPT !.perm = 0, !.uid = 0, !.gid = 0]
+                                ELSE [t[q] EXCEPT !.uid = 0, !.gid = 0]]
+
+\* effective identity after squashing (C10 states the rule; C11 uses it)
+Squash(mode, flavor, uid, gid) ==
+  IF flavor = "NONE" THEN <<65534, 65534>>
+  ELSE CASE mode = "all" -> <<65534, 65534>>
+         [] mode = "root" -> IF uid = 0 THEN <<65534, 65534>> ELSE IF gid = 0 THEN <<uid, 65534>> ELSE <<uid, gid>>
+         [] mode \in {"none", ""} -> <<uid, gid>>
+         [] OTHER -> <<65534, 65534>>
 
 \* move the subtree rooted at src to dst (dst and what is below it is replaced)
 Move(t, src, dst) ==
